@@ -459,6 +459,77 @@ def instances(spec):
     return out
 
 
+def _to_mutable(v, reg, path):
+    """Deep copy of a field value in which every immutable container is replaced by its
+    mutable counterpart (tuple -> list, bytes -> bytearray, immutable Dict -> dict)."""
+    if isinstance(v, tuple):
+        m = [_to_mutable(x, reg, path + "[]") for x in v]
+        reg.append((path, m))
+        return m
+    if isinstance(v, bytes):
+        m = bytearray(v)
+        reg.append((path, m))
+        return m
+    if isinstance(v, dns.immutable.Dict):
+        m = {k: _to_mutable(x, reg, path + "{}") for k, x in v.items()}
+        reg.append((path, m))
+        return m
+    return v
+
+
+def constructor_aliasing(spec, base, probs):
+    """Build the record through its constructor from caller-owned *mutable* containers, then
+    mutate those containers: an immutable value must not notice."""
+    import inspect
+    cls = type(base)
+    try:
+        params = [p for p in list(inspect.signature(cls.__init__).parameters)[1:] if p not in ("rdclass", "rdtype")]
+    except (TypeError, ValueError):
+        return "no-signature"
+    args, reg = {}, []
+    for name in params:
+        if not hasattr(base, name):
+            return "constructor-not-generic"
+        args[name] = _to_mutable(getattr(base, name), reg, name)
+    if not reg:
+        return "no-containers"
+    try:
+        r2 = cls(base.rdclass, base.rdtype, **args)
+    except Exception:
+        return "constructor-rejects-mutable-containers"
+
+    def obs():
+        try:
+            w = r2.to_wire(origin=origin())
+        except Exception as e:
+            w = "to_wire:" + type(e).__name__
+        try:
+            h = hash(r2)
+        except Exception as e:
+            h = "hash:" + type(e).__name__
+        return (w, h, r2 == base)
+
+    before = obs()
+    for path, m in reg:
+        if isinstance(m, list):
+            m.append(m[0] if m else 0)
+            if len(m) > 1:
+                del m[0]
+        elif isinstance(m, bytearray):
+            if len(m):
+                m[0] ^= 0xFF
+            m.append(0x41)
+        else:
+            m.clear()
+        after = obs()
+        if after != before:
+            probs.append(("immut/constructor-aliases-caller-container/%s.%s" % (tname(spec), path.split("[")[0].split("{")[0]),
+                          "%s built from a caller-owned mutable %s for field %s changed (wire/hash/equality) when the caller "
+                          "mutated its container afterwards" % (tname(spec), type(m).__name__, path)))
+            return "aliased"
+    return "independent"
+
+
 def run_immut(case):
     probs = []
     n = [0]
@@ -476,6 +547,10 @@ def run_immut(case):
     objs = instances(spec)
     for d, o in objs:
         walk(o, tname(spec), probs, set(), n)
+    for d, o in objs:
+        if d.startswith("wire#") and "relativized" not in d:
+            constructor_aliasing(spec, o, probs)
+            n[0] += 1
     return probs, n[0], len(objs)
 
 
